@@ -1,6 +1,7 @@
 import LyModel.Valid.LemmasCasePath
 import LyModel.Valid.WellFormed
 import LyModel.Valid.LemmasCaseGood
+import LyModel.Valid.LemmasCaseExact
 /-! `validate_idempotent` (C07) for schemas WITH `choice` / `case`, part 4: stable trees and the assembly.  A validated tree is
 *stable* — no node is new, on every sibling level `lyd_new_implicit` has nothing to do and no default node is the leftover of a
 dead case, the default flag of every non-presence container agrees with its children — and on a stable tree every phase of
@@ -614,5 +615,58 @@ theorem validate_idempotent2 (X : SchemaX) (o : VOpts) (hq1 : X.q.implicitInnerC
     simp only [hpe', if_true]
     exact ⟨trivial, rfl⟩
   · exact validate_of_stable2 X o hq1 _ (validate_stable2 X o hq1 hq2 hl hw t hB hp hh (by simpa using hpe))
+
+end LyModel.Valid
+
+namespace LyModel.Valid
+open LyModel LyModel.Tree
+
+/-! ## stable trees, spelled out -/
+
+theorem StableN_spec (X : SchemaX) (o : VOpts) (s : Nat) (f : Flags) (m : List Meta) (ks : List DNode) :
+    StableN X o true (.inner s f m ks) ↔
+      (∀ sid, wantL o (hasInst ks) (X.kidsOf (some s)) sid = true → hasInst ks sid = true) ∧ NV X ks ∧
+      (∀ n ∈ ks, n.flags.new = false ∧ StableN X o true n) ∧
+      (X.base.isNpCont s = true → f.dflt = false → ∃ n ∈ ks, n.flags.dflt = false) := by
+  rw [StableN_inner, implDoneX_iff, StableL_all]
+  have : (true = true → (X.base.isNpCont s && !f.dflt && ks.all (·.flags.dflt)) = false) ↔
+      (X.base.isNpCont s = true → f.dflt = false → ∃ n ∈ ks, n.flags.dflt = false) := by
+    constructor
+    · intro h hnp hd
+      have h := h rfl
+      simp only [hnp, hd, Bool.not_false, Bool.and_self, Bool.true_and] at h
+      obtain ⟨n, hn, hnd⟩ := List.all_eq_false.1 h
+      exact ⟨n, hn, by simpa using hnd⟩
+    · intro h _
+      cases hnp : X.base.isNpCont s with
+      | false => rfl
+      | true =>
+        cases hd : f.dflt with
+        | true => rfl
+        | false =>
+          obtain ⟨n, hn, hnd⟩ := h hnp hd
+          simp only [Bool.not_false, Bool.and_self, Bool.true_and]
+          rw [List.all_eq_false]
+          exact ⟨n, hn, by simp [hnd]⟩
+  rw [this]
+
+theorem StableTop_spec (X : SchemaX) (o : VOpts) (T : List DNode) :
+    StableTop X o T ↔
+      (∀ sid, wantL o (hasInst T) X.top sid = true → hasInst T sid = true) ∧ NV X T ∧
+      (∀ n ∈ T, n.flags.new = false ∧ StableN X o true n) := by
+  unfold StableTop
+  rw [implDoneX_iff, StableL_all]
+
+/-- **the trees a validation leaves as they are are exactly the stable ones** -/
+theorem validate_fixpoint_iff2 (X : SchemaX) (o : VOpts) (hq1 : X.q.implicitInnerCase = false) (hq2 : X.q.autodelDirectCase = false)
+    (hl : KidsLookupOk X) (hw : CaseWf X) (T : List DNode) (hB : NoNpContInCase X ∨ (npInvL X.base T ∧ newExplL T))
+    (hp : placedCL X X.top T = true) (hh : sheightL X.top ≤ walkFuel X T) (hpe : (o.present && T.isEmpty) = false) :
+    ((validate X o T).tree = T ∧ (validate X o T).evs = []) ↔ StableTop X o T := by
+  constructor
+  · intro h
+    have := validate_stable2 X o hq1 hq2 hl hw T hB hp hh hpe
+    rw [h.1] at this
+    exact this
+  · exact validate_of_stable2 X o hq1 T
 
 end LyModel.Valid
